@@ -7,6 +7,12 @@ SIM = "SIM: deterministic cluster simulation (real Core + MILP scheduler + HQ St
 
 CHECKS = {
     # id: (engine, category, technique, text, note, design_ref)
+    "C04": ("ALLOC", "exploration", "stateful property-based testing of the real ResourceAllocator against a harness-side ledger (reference model)",
+            "Random descriptors (range/list/uneven groups/sum with fractional size, couplings) and random try_allocate/release sequences; after every operation a ledger of live allocations is compared index by index with the allocator's pools and its concise summary: exclusivity (<=100% per index, sum <= size), exact amounts, one fractional index and it is last, indices/groups belong to the descriptor, conservation after release, `all` of everything granted after the final release.",
+            "the task environment variables (HQ_RESOURCE_VALUES_*) are checked in the SIM engine, not here; requests respect CLI rules", "5/C04"),
+    "C16": ("ALLOC", "exploration", "property-based differential testing: real allocator vs brute-force reference over all group subsets",
+            "For every request the grant/refusal and the groups used are compared with an exhaustive reference on the pre-state snapshot: feasibility (non-strict requests never refused spuriously, never granted infeasibly), minimum groups now (compact/tight), minimum groups on the empty worker (strict, if granted), maximum spread (scatter), `all`, single fractional index, is_enabled == try_allocate, no panic.",
+            "coupling weights <= 256 with at most 3 items; refusals of strict requests are not judged", "5/C16"),
     "C01": ("SIM", "exploration", "stateful property-based testing (proptest choice sequences over a simulated cluster), history invariants over event/launcher streams",
             "Generated histories (submits, message interleavings, losses, cancels, launch failures, time-limit expiries) are run against the real server+worker code; every event stream is checked for exactly-one terminal outcome, ordering, finish-implies-successful-execution and time-limit enforcement. Search, not proof: held on everything explored.",
             "fake TaskLauncher instead of real processes; message-granularity interleavings; mirrored registration glue in tako::verif", "5/C01"),
@@ -39,7 +45,7 @@ CHECKS = {
             "as C01", "5/C14"),
 }
 
-CLAIMED = ["C09"]
+CLAIMED = ["C04", "C09", "C16"]
 
 NOT_YET = {
     "C01": "check under construction in this round (SIM monitors written, not yet validated on the unchanged tree)",
@@ -97,6 +103,7 @@ def main():
             "add_only": True,
         },
         "engines": [
+            {"name": "ALLOC", "path": "/verif/harness/src/alloc.rs", "serves_properties": ["C04", "C16"], "kind_free_text": "real ResourceAllocator through tako::verif::AllocatorHandle, ledger + brute-force reference"},
             {"name": "SIM", "path": "/verif/harness/src/sim", "serves_properties": ["C01", "C02", "C03", "C05", "C06", "C07", "C08", "C09", "C13", "C14"], "kind_free_text": SIM},
         ],
         "checks": checks,
